@@ -75,10 +75,11 @@ pub const UNICODE_CLASSES: &[&str] = &[
 
 /// the Unicode classes in every lexical position, alone and in pairs
 pub fn unicode_texts() -> Vec<String> {
-    const TEMPLATES: &[&str] = &[
+    const TEMPLATES: &[&str] = &[ // 26 positions
+       
         "x@# is 5\n", "@x#'s 5\n", "say x@#y\n", "the @# is 5\n", "X@ Y# is 5\n", "x is a@ b#c. d\n", "say \"@\"#'s 5\n", "x@'re# 5\n", "(@)# x\n",
         "say 1@2#\n", "say x@at#0\n", "x says @#\n", "say@x#\n", "x@y takes z#\nsay z#\n\n", "put@1#into x\n", "@\n#\nsay 1\n", "say 1 @(c)# 2\n", "x is@5#\n",
-        "if x@\nsay 1#\n\n", "say x at@\"k#\"\n",
+        "if x@\nsay 1#\n\n", "say x at@\"k#\"\n", "x says@hello#\n", "x said@#\n", "x say@#hello\n", "@#!/usr/bin/rrss", "@#!\nsay 1\n", "x is a b@#\n",
     ];
     let mut v = Vec::new();
     for t in TEMPLATES {
